@@ -36,6 +36,18 @@ def _template(ctx, kind, side, exch='futures', data=()):
         ctx.constrain(And(sl < pe - 30, tp > pe + 30, pe > 85, pe < 115) if long else And(sl > pe + 30, tp < pe - 30, pe > 85, pe < 115))
         return S.make_template(side=side, entry=pe, stop=sl, take=tp, qty=1.0, name='T1', on_open_exits=(exch == 'spot'),
                                exit_qty_from_position=(exch == 'spot'))
+    if kind == 'T1h':
+        # the take-profit is declared in on_open_position and priced from a position-dependent value read inside that hook
+        # (tp + position.pnl: pnl is 0 at the moment of the entry fill, whatever the rest of the minute does)
+        pe = ctx.real('pe', 50, 200)
+        sl = ctx.real('sl', 50, 200)
+        tp = ctx.real('tp', 50, 200)
+        ctx.constrain(And(sl < pe - 30, tp > pe + 30, pe > 85, pe < 115) if long else And(sl > pe + 30, tp < pe - 30, pe > 85, pe < 115))
+
+        def price_from_pnl(s, order):
+            s.take_profit = (1.0, tp + s.position.pnl)
+        return S.make_template(side=side, entry=pe, stop=sl, take=tp, qty=1.0, name='T1h', on_open_exits=True,
+                               extra_hooks={'on_open_position': price_from_pnl})
     if kind == 'T1n':  # exits declared relative to nothing: may land near the current price (market exit from a hook)
         pe = ctx.real('pe', 50, 200)
         sl = ctx.real('sl', 50, 200)
@@ -125,6 +137,7 @@ def _jobs(tier):
         add(n=6, tf='3m', kind='T1', side='long', sym=[4], gaps=[4])
         add(n=6, tf='3m', kind='T1', side='short', sym=[5], gaps=[5])
         add(n=9, tf='3m', kind='T7d', side='long', data=['5m'], sym=[2, 7])  # data route that is not a multiple of the trading timeframe
+        add(n=9, tf='3m', kind='T1h', side='long', sym=[1, 4, 7])  # an order priced from position.pnl read in the fill hook
     else:
         for side in ('long', 'short'):
             add(n=6, tf='3m', kind='T1', side=side, sym=[1, 4])
@@ -139,6 +152,8 @@ def _jobs(tier):
             add(n=6, tf='3m', kind='T1', side=side, sym=[3, 4], gaps=[3, 4])
             add(n=10, tf='5m', kind='T1', side=side, sym=[7], gaps=[7])
         add(n=15, tf='3m', kind='T1', side='long', data=['15m'], sym=[1, 4])
+        add(n=9, tf='3m', kind='T1h', side='long', sym=[1, 4, 7])
+        add(n=9, tf='3m', kind='T1h', side='short', sym=[2, 4, 8])
         add(n=9, tf='3m', kind='T7d', side='long', data=['5m'], sym=[2, 7])
         add(n=12, tf='3m', kind='T7d', side='short', data=['5m'], sym=[3, 6, 8])
         add(n=15, tf='5m', kind='T7d', side='long', data=['15m'], sym=[3, 12])
